@@ -185,6 +185,31 @@ type class struct {
 	// generated per connection whatever the spec object carries.
 	callerData bool
 	capture    []entry // fingerprinted classes: the key_share entries of the captured hello
+	// prep: how the caller prepares the UConn instead of one ApplyPreset(mk()): ApplyPreset of other / the same spec
+	// first (the caller replaces the spec before the handshake). The last spec applied is mk().
+	prep func(*tls.UConn) error
+	// before: the specs applied before mk() (prep = applySeq(before..., mk)); the build under the recording Config.Rand
+	// notes where the reads of the last ApplyPreset start
+	before []func() *tls.ClientHelloSpec
+}
+
+// applySeq: ApplyPreset of each spec in turn (a fresh spec object each time)
+func applySeq(mks ...func() *tls.ClientHelloSpec) func(*tls.UConn) error {
+	return func(u *tls.UConn) error {
+		for _, mk := range mks {
+			if err := u.ApplyPreset(mk()); err != nil {
+				return err
+			}
+		}
+		return nil
+	}
+}
+
+func presetOf(id tls.ClientHelloID) func() *tls.ClientHelloSpec {
+	return func() *tls.ClientHelloSpec {
+		sp, _ := tls.UTLSIdToSpec(id)
+		return &sp
+	}
 }
 
 func specShares(sp *tls.ClientHelloSpec) ([]specKS, bool) {
@@ -209,6 +234,8 @@ type built struct {
 	keys    *tls.KeySharePrivateKeys
 	reads   []read
 	err     error
+	// readsFrom: index in the read log where the draws of the last ApplyPreset begin
+	readsFrom int
 }
 
 // extraKeys reads KeySharePrivateKeys.ExtraEcdhe by reflection (the field exists only in the repaired tree).
@@ -265,7 +292,21 @@ func build(p *hs.PKI, cl class, rnd io.Reader) *built {
 		b.spec, _ = specShares(cl.mk())
 	} else {
 		uc := tls.UClient(nil, cfg, cl.id)
-		if sp != nil {
+		if cl.prep != nil {
+			if err := applySeq(cl.before...)(uc); err != nil {
+				b.err = err
+				return b
+			}
+			if rr, ok := rnd.(*recRand); ok {
+				rr.mu.Lock()
+				b.readsFrom = len(rr.log) // the earlier ApplyPreset calls made their own draws
+				rr.mu.Unlock()
+			}
+			if err := uc.ApplyPreset(sp); err != nil {
+				b.err = err
+				return b
+			}
+		} else if sp != nil {
 			if err := uc.ApplyPreset(sp); err != nil {
 				b.err = err
 				return b
@@ -298,7 +339,7 @@ func build(p *hs.PKI, cl class, rnd io.Reader) *built {
 	if rr, ok := rnd.(*recRand); ok {
 		rr.mu.Lock()
 		rr.stop = true
-		b.reads = rr.log
+		b.reads = rr.log[b.readsFrom:]
 		rr.mu.Unlock()
 	}
 	w, err := hs.ParseClientHello(b.raw)
@@ -431,6 +472,43 @@ func examine(c *vh.Ctx, b *built, fixed bool, emitCases bool) {
 			if !backed {
 				failOnce(c, failKey("share-unbacked", name, e.group, b.spec), "the client sent a key share whose private key it did not retain", input,
 					map[string]any{"ecdhe": hs.CurveOfKey(b.keys.Ecdhe), "extra": len(extra), "mlkem": b.keys.Mlkem != nil}, "a retained private key with this public half")
+			}
+		}
+	}
+	// no stale keys: every retained private key is the private half of a share this hello carries (the key the client
+	// ends up using for a group must be the one whose public half went out)
+	if b.keys != nil && len(b.spec) == len(b.entries) {
+		extra, _ := extraKeys(b.keys)
+		onWire := func(pub []byte) bool {
+			for _, e := range b.entries {
+				if bytes.Equal(e.data, pub) {
+					return true
+				}
+				if isHybrid(e.group) {
+					if x, _ := hybridParts(e.group, e.data); bytes.Equal(x, pub) {
+						return true
+					}
+				}
+			}
+			return false
+		}
+		for i, k := range append([]*ecdh.PrivateKey{b.keys.Ecdhe, b.keys.MlkemEcdhe}, extra...) {
+			if k != nil && !onWire(k.PublicKey().Bytes()) {
+				failOnce(c, "stale-key/"+name, "the UConn retains an ECDH private key whose public half is in no key share of its ClientHello", input,
+					map[string]any{"slot": []string{"Ecdhe", "MlkemEcdhe", "ExtraEcdhe"}[min(i, 2)], "curve": hs.CurveOfKey(k), "extra_keys": len(extra)}, "only the keys of the shares sent")
+			}
+		}
+		if b.keys.Mlkem != nil {
+			found := false
+			for _, e := range b.entries {
+				if isHybrid(e.group) {
+					if _, ek := hybridParts(e.group, e.data); bytes.Equal(ek, b.keys.Mlkem.EncapsulationKey().Bytes()) {
+						found = true
+					}
+				}
+			}
+			if !found {
+				failOnce(c, "stale-key/"+name, "the UConn retains an ML-KEM decapsulation key whose encapsulation key is in no key share of its ClientHello", input, "Mlkem", "only the keys of the shares sent")
 			}
 		}
 	}
@@ -635,6 +713,33 @@ func run(c *vh.Ctx) {
 		}
 	}
 	classes = append(classes, customClasses()...)
+	// the caller replaces the spec before the handshake: ApplyPreset more than once on one UConn
+	{
+		ff, ch := presetOf(tls.HelloFirefox_120), presetOf(tls.HelloChrome_133)
+		cust := map[string]func() *tls.ClientHelloSpec{}
+		for _, cc := range customClasses() {
+			cust[cc.name] = cc.mk
+		}
+		re := func(name string, last func() *tls.ClientHelloSpec, seq ...func() *tls.ClientHelloSpec) class {
+			return class{name: name, kind: "represet", id: tls.HelloCustom, mk: last, before: seq, prep: applySeq(append(append([]func() *tls.ClientHelloSpec(nil), seq...), last)...)}
+		}
+		classes = append(classes,
+			re("re-firefox120-twice", ff, ff),
+			re("re-firefox120-three-times", ff, ff, ff),
+			re("re-chrome133-then-firefox120", ff, ch),
+			re("re-firefox120-then-chrome133", ch, ff),
+			re("re-five-shares-then-firefox120", ff, cust["custom-five-shares"]),
+			re("re-mlkem-only-then-firefox120", ff, cust["custom-mlkem-only"]),
+			re("re-firefox120-then-mlkem-only", cust["custom-mlkem-only"], ff),
+			re("re-five-shares-twice", cust["custom-five-shares"], cust["custom-five-shares"]))
+		for _, src := range []class{{name: "Firefox_120", kind: "parrot", id: tls.HelloFirefox_120}, {name: "Chrome_133", kind: "parrot", id: tls.HelloChrome_133}} {
+			if fc, ok := fingerprinted(p, src); ok {
+				r := re("re-fp-"+src.name+"-twice", fc.mk, fc.mk)
+				r.capture = fc.capture
+				classes = append(classes, r)
+			}
+		}
+	}
 	classes = append(classes, quicClasses()...)
 
 	// ---- (1) recorded builds: oracle + CShape + CReads ----
@@ -762,10 +867,10 @@ func run(c *vh.Ctx) {
 			scfg := p.ServerConfig("h2", "http/1.1")
 			scfg.CurvePreferences = []tls.CurveID{tls.CurveID(j.group)}
 			var sp *tls.ClientHelloSpec
-			if j.cl.mk != nil {
+			if j.cl.mk != nil && j.cl.prep == nil {
 				sp = j.cl.mk()
 			}
-			j.res = hs.Run(hs.Opts{ID: j.cl.id, Spec: sp, ClientCfg: p.ClientConfig(), ServerCfg: scfg})
+			j.res = hs.Run(hs.Opts{ID: j.cl.id, Spec: sp, Prepare: j.cl.prep, ClientCfg: p.ClientConfig(), ServerCfg: scfg})
 		}(&jobs[j])
 	}
 	wg.Wait()
